@@ -45,13 +45,17 @@ def main():
     out, mode, inp = sys.argv[1], sys.argv[2], sys.argv[3]
     with open(out, "w") as fh:
         if mode == "files":
-            for path in json.load(open(inp)):
+            shared = {}          # one code_objects dictionary handed to every third load, as a caller collecting code objects over many files would
+            for n_, path in enumerate(json.load(open(inp))):
                 data = open(path, "rb").read()
                 try:
                     with xd.quiet():
                         fp = KeepTell(data)
                         with xd.forced_portable():
-                            (version, ts, magic_int, co, pypy, ss, sip) = load_module_from_file_object(fp, filename=path)
+                            if n_ % 3 == 2:
+                                (version, ts, magic_int, co, pypy, ss, sip) = load_module_from_file_object(fp, filename=path, code_objects=shared)
+                            else:
+                                (version, ts, magic_int, co, pypy, ss, sip) = load_module_from_file_object(fp, filename=path)
                     off = payload_offset(data, version)
                     r = rec_value(path, magic_int, version, data[off:], fp.told - off, co, 1)
                 except Exception as e:
